@@ -716,7 +716,7 @@ class RlRaggedRemoveEmpty(Family):
         ctx.prove_then_assume("post.lock-step: every row keeps one boundary more than values", z3.And(
             e2._shape.lengths.get(r) == v2._shape.lengths.get(r) + 1, e2._shape.starts.get(r) == rk2(IS(r)), v2._shape.starts.get(r) == rk1(VS(r)),
             v2._shape.lengths.get(r) == rk1(VS(r + 1)) - rk1(VS(r))),
-            pool=[r, r + 1, VL(r), IS(r), IS(r + 1), VS(r), VS(r + 1), n], live=[c])
+            pool=[r, r + 1, VL(r), IS(r), IS(r + 1), VS(r), VS(r + 1), n], live=[c], without=["masks cell by cell", "lemmaF"])
         ctx.prove_then_assume("post.the first boundary of every row is kept", ED.get(e2._shape.starts.get(r)) == B(r, 0),
                   pool=[r, r + 1, IS(r), IS(r) + 1, irow(IS(r)), irow(IS(r)) + 1, rk2(IS(r)), n, z3.IntVal(0)], live=[c])
         # a kept run
